@@ -2,7 +2,7 @@
     Statements proved on the models; the runtime half (wall-clock, Tokio wake-ups, OS sockets) is
     exercised by the fault harness under a virtual clock. *)
 From Remoc Require Import Lib.Base Chmux.Wire Chmux.WireProofs Chmux.Mux Chmux.Endpoint Chmux.EndpointDeath
-  Chmux.Parse Chmux.Recv Chmux.RecvProofs Chmux.PortFlow Chmux.PortFlowProofs Chmux.Time.
+  Chmux.Parse Chmux.Recv Chmux.RecvProofs Chmux.PortFlow Chmux.PortFlowProofs Chmux.Time Chmux.TimeRun.
 
 (** When a dispatcher ends -- because of what it received (protocol error, reset), or after Goodbye in
     both directions -- it ends for good: no action of the endpoint is enabled any more ... *)
@@ -43,6 +43,35 @@ Theorem C06_idle_healthy : forall t jitter,
   t <= 18446744073709551615 * MS -> 2 * jitter < enforced t -> max_gap t jitter < enforced t.
 Proof. exact idle_never_times_out. Qed.
 
+(** ... for an idle period of ANY length: the two timers run over a whole timeline (the peer sends its next
+    message at most one ping interval after the previous one, every message takes a delay within
+    [dmin, dmin + jitter]); by induction over the timeline the receive timer never fires. *)
+Theorem C06_idle_healthy_forever : forall t jitter dmin gs ds s0 d0,
+  t <= 18446744073709551615 * MS -> 2 * jitter < enforced t ->
+  gaps_ok (ping_interval t) gs -> delays_ok dmin jitter ds -> dmin <= d0 ->
+  recv_run (enforced t) (s0 + d0) (arrivals (sends s0 gs) ds) = None.
+Proof. exact idle_run_never_times_out. Qed.
+
+(** ... and silence that begins after ANY such timeline is noticed exactly one enforced timeout after the
+    last message that arrived (bounded time; the last re-arm is never later than the latest arrival). *)
+Theorem C06_silence_after_any_prefix : forall t jitter dmin gs ds s0 d0 a rest,
+  t <= 18446744073709551615 * MS -> 2 * jitter < enforced t ->
+  gaps_ok (ping_interval t) gs -> delays_ok dmin jitter ds -> dmin <= d0 ->
+  let arr := arrivals (sends s0 gs) ds in
+  let last := recv_last (enforced t) (s0 + d0) arr in
+  last + enforced t <= a ->
+  recv_run (enforced t) (s0 + d0) (arr ++ a :: rest) = Some (last + enforced t) /\
+  last <= maxl (s0 + d0) arr.
+Proof. exact silence_after_any_prefix. Qed.
+
+Example C06_timeline_nonvacuous :
+  (* 0.9 ms timeout: pings every 0.5 ms with up to 0.3 ms jitter keep the link alive; without pings it dies *)
+  gaps_ok (ping_interval 900000) [500000; 500000; 500000; 400000] /\
+  delays_ok 0 300000 [100; 300000; 0; 299999] /\ 2 * 300000 < enforced 900000 /\
+  recv_run (enforced 900000) 0 (arrivals (sends 0 [500000; 500000; 500000; 400000]) [100; 300000; 0; 299999]) = None /\
+  recv_run (enforced 900000) 0 [5000000] = Some 1000000.
+Proof. unfold gaps_ok, delays_ok. repeat split; try (repeat constructor; vm_compute; congruence); vm_compute; congruence. Qed.
+
 (** A configured timeout is never announced as "none". *)
 Theorem C06_timeout_announced : forall c,
   (x_timeout c = None <-> x_timeout (exchanged c) = None) /\
@@ -63,4 +92,6 @@ Print Assumptions C06_credit_waiter_woken.
 Print Assumptions C06_prefix.
 Print Assumptions C06_silence_is_noticed.
 Print Assumptions C06_idle_healthy.
+Print Assumptions C06_idle_healthy_forever.
+Print Assumptions C06_silence_after_any_prefix.
 Print Assumptions C06_timeout_announced.
